@@ -136,15 +136,24 @@ def _cond(case):
     rng = np.random.default_rng(case['seed'])
     lead, D = case['lead'], case['D']
     a = _cint(rng, lead + [D, D], hi=2)
+    if case['seed'] % 5 == 0:
+        a = a * 0                                  # the zero matrix (empty mask) maps to the zero matrix
     phi = a @ np.conj(np.swapaxes(a, -1, -2))
     g = case['gamma']
-    d0 = enc.digest(phi)
-    phi.setflags(write=False)
-    out, exc = _call(bf.condition_covariance, phi, g[0] / g[1])
+    # the operation is homogeneous of degree one: the call sees 2^sexp * phi (exact scaling), the record the lattice matrix
+    sexp = [0, -60, 40, -90][case['seed'] % 4]
+    arg = phi * 2.0 ** sexp
+    d0 = enc.digest(arg)
+    arg.setflags(write=False)
+    out, exc = _call(bf.condition_covariance, arg, g[0] / g[1])
+    if enc.digest(arg) != d0:
+        exc = 'InputMutated'
+    if out is not None:
+        out = out * 2.0 ** -sexp
     return [dict(kind='cond', shape=enc.shape(phi), phi=enc.acint(phi), gamma=g, exc=exc,
-                 pure=enc.digest(phi) == d0, out_shape=[] if out is None else enc.shape(out),
+                 pure=True, out_shape=[] if out is None else enc.shape(out),
                  out=[] if out is None else enc.acrat(out, max_den=1 << 14),
-                 fp='fn=condition_covariance', key=f'cond:{case["seed"]}')]
+                 fp=f'fn=condition_covariance;sexp={sexp}', key=f'cond:{case["seed"]}')]
 
 
 def run_case(case):
